@@ -550,6 +550,8 @@ def judge_renderer(case):
 
 
 def recheck(case):
+    if case.get("mode") == "giant":
+        return [("C08/" + s, w) for s, w in judge_giant(case)]
     case = dict(case)
     case.pop("_built", None)
     probs, _ = judge(case)
@@ -607,6 +609,58 @@ def work_default_limit(task, col):
             record(col, case, probs, info, "clamp")
 
 
+def judge_giant(case):
+    """Messages beyond 16 KiB (names around offset 0x3FFF, where compression stops being
+    allowed): at a generous limit, at limits that cut inside the tail and with truncation
+    preferred, rendering must still either raise TooBig or return a parseable message."""
+    spec = c03.large_spec(case["target"], case["late"], case["where"], False)
+    m = c03.build(spec)
+    probs = []
+    try:
+        full = m.to_wire(max_size=65535)
+    except dns.exception.TooBig:
+        full = None
+    except Exception as e:
+        return [("giant/render-crash/" + c03.crash_sig(e), "to_wire(max_size=65535): %s: %s" % (type(e).__name__, e))]
+    limits = [65535]
+    if full is not None:
+        limits += [len(full) - 1, len(full) - 20, case["target"] + 3, case["target"] - 3]
+    for L in limits:
+        for pt in (False, True):
+            try:
+                w = m.to_wire(max_size=L, prefer_truncation=pt)
+            except dns.exception.TooBig:
+                if full is not None and len(full) <= L:
+                    probs.append(("giant/toobig-but-fits", "limit %d, message has %d octets" % (L, len(full))))
+                continue
+            except Exception as e:
+                probs.append(("giant/render-crash/" + c03.crash_sig(e), "to_wire(max_size=%d, prefer_truncation=%s): %s: %s" % (
+                    L, pt, type(e).__name__, e)))
+                continue
+            if len(w) > L:
+                probs.append(("giant/size/exceeds-limit", "len %d > %d" % (len(w), L)))
+            try:
+                W.parse(w)
+            except W.WireError as e:
+                probs.append(("giant/refparse/" + e.kind, "limit %d prefer_truncation=%s: %s" % (L, pt, e)))
+    return probs
+
+
+def work_giant(task, col):
+    lo, hi = task
+    for target in range(lo, hi):
+        for late in c03.LATE_NAMES[:2]:
+            for where in ("owner", "ns"):
+                case = {"mode": "giant", "target": target, "late": late, "where": where}
+                probs = judge_giant(case)
+                col.count("evaluations")
+                col.count("giant_messages")
+                col.nontrivial(("giant", target, late, where))
+                col.outcome("giant:" + (probs[0][0] if probs else "ok"))
+                for s_, w_ in probs:
+                    col.violation("C08/" + s_, w_ + " [first occurrence of %s as %s at offset 0x%X]" % (late, where, target), case)
+
+
 def work_renderer(task, col):
     mi, lo, hi = task
     nsets = len(base_facts(mi)["groups"])
@@ -662,4 +716,7 @@ def run(ctx):
         "tsig_keys": {mi: tsig_keys(MESSAGES[mi])[1:] for mi in msgs},
         "edns": ["none", "plain", "cookie"], "tasks": len(tasks),
     })
+    glo, ghi = ctx.pick((0x3FFA, 0x4004), (0x3FE8, 0x4018))
+    tasks += [(work_giant, (t, t + 1)) for t in range(glo, ghi)]
+    ctx.extra["giant_message_offsets"] = [hex(glo), hex(ghi - 1)]
     ctx.pmap(c03._dispatch, tasks)
